@@ -372,7 +372,14 @@ def jaxtyped(fn=_sentinel, *, typechecker=_sentinel):
                                 "`jaxtyping.jaxtyped` function, and may be due to a "
                                 "typecheck error. "
                             )
-                            e.add_note(_jaxtyping_note_str(_spacer + msg + shape_info))
+                            note = _jaxtyping_note_str(_spacer + msg + shape_info)
+                            try:
+                                e.add_note(note)
+                            except Exception:
+                                # E.g. an exception class that forbids attribute
+                                # assignment (a frozen dataclass). The note is only a
+                                # nicety: never let it replace the original error.
+                                pass
                     raise
                 finally:
                     pop_shape_memo()
